@@ -34,6 +34,9 @@ package peering
 //@   requires ph != nil
 //@   modifies ph.reconnectTimer, cancelled(ph.ctx)
 //@   ensures[stopped] cancelled(ph.ctx) && ph.reconnectTimer == nil
+// the handler must already be marked stopped when the lock is released, otherwise a
+// notification that takes the lock right after stop() can re-arm the timer
+//@   site[stopped_before_unlock] call:Mutex.Unlock : cancelled(ph.ctx) && ph.reconnectTimer == nil
 
 //@ func (*peerHandler).nextBackoff
 //@   prop C46
@@ -56,6 +59,9 @@ package peering
 //@   requires[inv] delayInv(ph)
 //@   requires[stopped_inv] stoppedInv(ph)
 //@   ensures[stopped_inv] stoppedInv(ph)
+// a successful connection (the pending timer is cancelled here) resets the back-off
+//@   ensures[reset_on_connect] old(ph.reconnectTimer) != nil && ph.reconnectTimer == nil ==> ph.nextDelay == initialDelay
+//@   ensures[otherwise_kept] ph.reconnectTimer == old(ph.reconnectTimer) ==> ph.nextDelay == old(ph.nextDelay)
 //@   modifies ph.nextDelay, ph.reconnectTimer
 //@   ensures[inv] delayInv(ph)
 
